@@ -807,3 +807,11 @@ package main
 //@ func (*RuntimeState).idpOpenIDCTokenHandler
 //@   atcall github.com/go-jose/go-jose/v4.NewSigner requires (sk jose.SigningKey, opts *jose.SignerOptions) :: sk.Key != nil && state.Signer != nil && sk.Key == any(state.Signer)   #C09.oidc-tokens-signed-by-the-loaded-key @C09
 //@ callers github.com/go-jose/go-jose/v4.NewSigner only (*RuntimeState).genNewSerializedAuthJWT, (*RuntimeState).updateAuthJWTWithNewAuthLevel, (*RuntimeState).genNewSerializedStorageStringDataJWT, (*RuntimeState).generateAuthJWT, (*RuntimeState).idpOpenIDCAuthorizationHandler, (*RuntimeState).idpOpenIDCTokenHandler  #C09.all-token-signing-sites-known @C09
+
+// ---- C03: the cloud-role signer signs the validity window it is given (24 hours: lib/server/aws_identity_cert) ----
+//@ pure func certWindowEnd(c *x509.Certificate) int64 = timeNanos(c.NotAfter)
+//@ pure func certWindowStart(c *x509.Certificate) int64 = timeNanos(c.NotBefore)
+//@ pure func certIsCA(c *x509.Certificate) bool = c.IsCA
+//@ func (*RuntimeState).generateRoleCert
+//@   requires template != nil
+//@   atcall crypto/x509.CreateCertificate requires (rnd2 io.Reader, template2 *x509.Certificate, parent2 *x509.Certificate, pub2 any, priv2 any) :: template2 == template && certWindowEnd(template2) == old(certWindowEnd(template)) && certWindowStart(template2) == old(certWindowStart(template)) && certIsCA(template2) == old(certIsCA(template))   #C03.cloud-role-signs-the-window-it-was-given @C03
